@@ -1,8 +1,250 @@
+import Qentem.Model.BigInt
 import Qentem.Driver.Proto
-namespace Qentem.Driver.BigInt
-open Qentem.Driver
+/-!
+Driver of the BigInt model (ops prefixed `big`).
 
-/-- Stub: replaced by the area's model driver. `op` is the first token of the line. -/
-def handle (_op : String) (_args : List String) : String := "bad-op"
+  bigseq <W> <n> <op>*          run the operations on a fresh object of n words of W bits; one token
+                                 `idx/words/ret` per step (words without trailing zeros; ret `_`, a
+                                 number, `T`/`F`); a step on which the model faults prints `pre` and is
+                                 skipped (the harness skips the same steps by its own precondition test)
+  bigoracle <W> <n> <k> <op>^k <token>^k
+                                 the C19 predicate (Lean `specStep`/`canon`) evaluated on an
+                                 implementation trace: `ok <checked>` or `bad <step> <why>`
+  bighm <hand|nat> <W> a b       DoubleSize::Multiply  -> `hi lo exact`
+  bighd <hand|nat> <W> hi lo d   DoubleSize::Divide    -> `hi lo exact` (`exact` only meaningful if hi < d)
+  bighmx <v> 8 a                 all b in 0..255       -> `hash exactCount`
+  bighdx <v> 8 d hi              all lo in 0..255      -> `hash exactCount`
+
+op tokens: as:K:x ad:K:x sb:K:x or:K:x an:K:x mu:x dv:d sl:k sr:k lt:x le:x gt:x ge:x eq:x ne:x (object OP x)
+           rlt:x rle:x rgt:x rge:x req:x rne:x (x OP object, the reversed friends)
+           ib nz iz nu nw:K ff fl cl   and, with a second object t:  sv (t = x)  ld (x = t)  mv (x = move(t));
+           the token of sv/ld/mv is `idx/words/_~idxT/wordsT`
+-/
+namespace Qentem.Driver.BigInt
+open Qentem.Driver Qentem.BigInt
+
+def parseOp (t : String) : Option Op :=
+  match t.splitOn ":" with
+  | [o] =>
+    if o == "ib" then some .isBig else if o == "nz" then some .notZero else if o == "iz" then some .isZero
+    else if o == "nu" then some .number else if o == "ff" then some .ffb else if o == "fl" then some .flb
+    else if o == "cl" then some .clear else none
+  | [o, a] =>
+    match a.toNat? with
+    | none => none
+    | some x =>
+      if o == "mu" then some (.mul x) else if o == "dv" then some (.div x)
+      else if o == "sl" then some (.shl x) else if o == "sr" then some (.shr x)
+      else if o == "lt" then some (.cmp .lt x) else if o == "le" then some (.cmp .le x)
+      else if o == "gt" then some (.cmp .gt x) else if o == "ge" then some (.cmp .ge x)
+      else if o == "eq" then some (.cmp .eq x) else if o == "ne" then some (.cmp .ne x)
+      else if o == "rlt" then some (.rcmp .lt x) else if o == "rle" then some (.rcmp .le x)
+      else if o == "rgt" then some (.rcmp .gt x) else if o == "rge" then some (.rcmp .ge x)
+      else if o == "req" then some (.rcmp .eq x) else if o == "rne" then some (.rcmp .ne x)
+      else if o == "nw" then some (.narrow x) else none
+  | [o, k, a] =>
+    match k.toNat?, a.toNat? with
+    | some k, some x =>
+      if o == "as" then some (.assign k x) else if o == "ad" then some (.bop .add k x)
+      else if o == "sb" then some (.bop .sub k x) else if o == "or" then some (.bop .or k x)
+      else if o == "an" then some (.bop .and k x) else none
+    | _, _ => none
+  | _ => none
+
+def parseOp2 (t : String) : Option Op2 :=
+  if t == "sv" then some .save else if t == "ld" then some .load else if t == "mv" then some .move
+  else (parseOp t).map .on
+
+def trimZeros (ws : List Nat) : List Nat :=
+  (ws.reverse.dropWhile (· == 0)).reverse
+
+def showRet : Ret → String
+  | .none => "_"
+  | .nat v => toString v
+  | .bool b => if b then "T" else "F"
+
+def showState (s : Big) (r : Ret) : String :=
+  toString s.idx ++ "/" ++ showNats (trimZeros s.words) ++ "/" ++ showRet r
+
+def showPair (p : Pair) (o : Op2) (r : Ret) : String :=
+  match o with
+  | .on _ => showState p.x r
+  | _ => showState p.x r ++ "~" ++ toString p.t.idx ++ "/" ++ showNats (trimZeros p.t.words)
+
+def runSeq (c : Cfg) : Pair → List Op2 → List String → List String
+  | _, [], acc => acc.reverse
+  | p, o :: os, acc =>
+    match step2 c p o with
+    | .ok (p', r) => runSeq c p' os (showPair p' o r :: acc)
+    | .error _ => runSeq c p os ("pre" :: acc)
+
+def parseRet (t : String) : Option Ret :=
+  if t == "_" then some .none else if t == "T" then some (.bool true) else if t == "F" then some (.bool false)
+  else t.toNat?.map .nat
+
+def parseToken (n : Nat) (t : String) : Option (Big × Ret) :=
+  match t.splitOn "/" with
+  | [i, w, r] =>
+    match i.toNat?, parseNats w, parseRet r with
+    | some i, some ws, some r =>
+      if ws.length ≤ n then some (⟨ws ++ List.replicate (n - ws.length) 0, i⟩, r) else none
+    | _, _, _ => none
+  | _ => none
+
+def parseT (n : Nat) (t : String) : Option Big :=
+  match t.splitOn "/" with
+  | [i, w] =>
+    match i.toNat?, parseNats w with
+    | some i, some ws => if ws.length ≤ n then some ⟨ws ++ List.replicate (n - ws.length) 0, i⟩ else none
+    | _, _ => none
+  | _ => none
+
+def resync (W n : Nat) (s : Big) : Option Nat := if s == canon W n (s.val W) then some (s.val W) else none
+
+def describe (W n : Nat) (k : Nat) (who : String) (s : Big) (v : Nat) : String :=
+  "bad " ++ toString k ++ " value-expected:" ++ toString v ++ " held:" ++ toString (s.val W) ++ " idx:" ++ toString s.idx
+    ++ " expected-idx:" ++ toString (canon W n v).idx ++ " object:" ++ who
+
+/-- The property predicate on a trace of the implementation (see header): `a`/`b` are the exact integers
+held by x / t while everything so far fitted (`none` after an operation that did not fit, until the
+object is canonical again). -/
+def oracle (W n : Nat) : Nat → Option Nat → Option Nat → List Op2 → List String → Nat → String
+  | _, _, _, [], _, checked => "ok " ++ toString checked
+  | _, _, _, _ :: _, [], _ => "bad-op"
+  | k, a, b, o :: os, t :: ts, checked =>
+    if t == "pre" then
+      match a, o with
+      | some v, .on o' =>
+        if (specStep W n v o').isSome then "bad " ++ toString k ++ " skipped-but-spec-defined"
+        else oracle W n (k + 1) a b os ts checked
+      | _, .on _ => oracle W n (k + 1) a b os ts checked
+      | _, _ => "bad " ++ toString k ++ " skipped-but-spec-defined"
+    else
+      match o with
+      | .on o' =>
+        match parseToken n t with
+        | none => "bad " ++ toString k ++ " unparsable-token"
+        | some (s, r) =>
+          match a with
+          | some v =>
+            match specStep W n v o' with
+            | some (v', r') =>
+              if s != canon W n v' then describe W n k "x" s v'
+              else if r != r' then "bad " ++ toString k ++ " returned:" ++ showRet r ++ " expected:" ++ showRet r'
+              else oracle W n (k + 1) (some v') b os ts (checked + 1)
+            | none => oracle W n (k + 1) (resync W n s) b os ts checked
+          | none => oracle W n (k + 1) (resync W n s) b os ts checked
+      | _ =>
+        match t.splitOn "~" with
+        | [tx, tt] =>
+          match parseToken n tx, parseT n tt with
+          | some (sx, _), some st =>
+            -- both objects must be tracked: the destination's invariant is a precondition of `copy`
+            let src : Option Nat := match a, b with
+              | some va, some vb => (match o with | .save => some va | _ => some vb)
+              | _, _ => none
+            match src with
+            | some v =>
+              let bexp : Nat := match o with | .move => 0 | _ => v
+              if sx != canon W n v then describe W n k "x" sx v
+              else if st != canon W n bexp then describe W n k "t" st bexp
+              else oracle W n (k + 1) (some v) (some bexp) os ts (checked + 1)
+            | none => oracle W n (k + 1) (resync W n sx) (resync W n st) os ts checked
+          | _, _ => "bad " ++ toString k ++ " unparsable-token"
+        | _ => "bad " ++ toString k ++ " unparsable-token"
+
+def parseVariant (v : String) (W : Nat) : Option Cfg :=
+  if v == "hand" then some ⟨W, true⟩ else if v == "nat" then some ⟨W, false⟩ else none
+
+def shiftFor (c : Cfg) (d : Nat) : Nat := if c.hand then (c.W - 1) - d.log2 else 0
+
+def mulExact (W a b hi lo : Nat) : Bool := hi * 2 ^ W + lo == a * b && lo < 2 ^ W
+
+def divExact (W hi lo d r q : Nat) : Bool := q * d + r == hi * 2 ^ W + lo && r < d
+
+def showB (b : Bool) : String := if b then "1" else "0"
+
+def hashStep (acc v : Nat) : Nat := (acc * 1000003 + v) % 2 ^ 64
+
+def mulBatch (c : Cfg) (a : Nat) : Nat → Nat → Nat → String
+  | 0, acc, ex => toString acc ++ " " ++ toString ex
+  | k + 1, acc, ex =>
+    let b := 2 ^ c.W - 1 - k
+    let (hi, lo) := dmul c a b
+    mulBatch c a k (hashStep acc (hi * 2 ^ c.W + lo)) (if mulExact c.W a b hi lo then ex + 1 else ex)
+
+def divBatch (c : Cfg) (d hi : Nat) : Nat → Nat → Nat → String
+  | 0, acc, ex => toString acc ++ " " ++ toString ex
+  | k + 1, acc, ex =>
+    let lo := 2 ^ c.W - 1 - k
+    match ddiv c hi lo d (shiftFor c d) with
+    | .ok (r, q) =>
+      divBatch c d hi k (hashStep acc (r * 2 ^ c.W + q)) (if divExact c.W hi lo d r q then ex + 1 else ex)
+    | .error _ => "fault"
+
+def handle (op : String) (args : List String) : String :=
+  if op == "bigseq" then
+    match args with
+    | w :: n :: ops =>
+      match w.toNat?, n.toNat?, ops.mapM parseOp2 with
+      | some W, some n, some ops => " ".intercalate (runSeq (Cfg.std W) ⟨zero n, zero n⟩ ops [])
+      | _, _, _ => "bad-op"
+    | _ => "bad-op"
+  else if op == "bigoracle" then
+    match args with
+    | w :: n :: k :: rest =>
+      match w.toNat?, n.toNat?, k.toNat? with
+      | some W, some n, some k =>
+        if rest.length != 2 * k then "bad-op" else
+        match (rest.take k).mapM parseOp2 with
+        | some ops => oracle W n 0 (some 0) (some 0) ops (rest.drop k) 0
+        | none => "bad-op"
+      | _, _, _ => "bad-op"
+    | _ => "bad-op"
+  else if op == "bighm" then
+    match args with
+    | [v, w, a, b] =>
+      match w.toNat?, a.toNat?, b.toNat? with
+      | some W, some a, some b =>
+        match parseVariant v W with
+        | some c => let (hi, lo) := dmul c a b
+                    toString hi ++ " " ++ toString lo ++ " " ++ showB (mulExact W a b hi lo)
+        | none => "bad-op"
+      | _, _, _ => "bad-op"
+    | _ => "bad-op"
+  else if op == "bighd" then
+    match args with
+    | [v, w, hi, lo, d] =>
+      match w.toNat?, hi.toNat?, lo.toNat?, d.toNat? with
+      | some W, some hi, some lo, some d =>
+        match parseVariant v W with
+        | some c =>
+          match ddiv c hi lo d (shiftFor c d) with
+          | .ok (r, q) => toString r ++ " " ++ toString q ++ " " ++ showB (divExact W hi lo d r q)
+          | .error _ => "pre"
+        | none => "bad-op"
+      | _, _, _, _ => "bad-op"
+    | _ => "bad-op"
+  else if op == "bighmx" then
+    match args with
+    | [v, w, a] =>
+      match w.toNat?, a.toNat? with
+      | some W, some a =>
+        match parseVariant v W with
+        | some c => if W ≤ 8 then mulBatch c a (2 ^ W) 0 0 else "bad-op"
+        | none => "bad-op"
+      | _, _ => "bad-op"
+    | _ => "bad-op"
+  else if op == "bighdx" then
+    match args with
+    | [v, w, d, hi] =>
+      match w.toNat?, d.toNat?, hi.toNat? with
+      | some W, some d, some hi =>
+        match parseVariant v W with
+        | some c => if W ≤ 8 then divBatch c d hi (2 ^ W) 0 0 else "bad-op"
+        | none => "bad-op"
+      | _, _, _ => "bad-op"
+    | _ => "bad-op"
+  else "bad-op"
 
 end Qentem.Driver.BigInt
